@@ -37,8 +37,9 @@ PER_CELL = ("imp", "vol", "u", "lat", "fill")
 # an importance edit on a shared entry `imp:n,p=1` has to split it into `imp:p=1 imp:n=x`: key and value of both)
 BUDGET = {
     "cell_number": 1, "surface_number": 1, "material_number": 1, "transform_number": 1, "universe_number": 2,
-    "importance": 6, "importance_all": 10, "volume": 2, "atom_density": 1, "mass_density": 1,
-    "surface_constant": 1, "location": 1, "radius": 1, "fraction": 1, "displacement": 1,
+    # an entry that stood inside a shortcut (3J, 2R) splits it: up to three words (J 9.0 J) replace one
+    "importance": 6, "importance_all": 10, "volume": 3, "atom_density": 1, "mass_density": 1,
+    "surface_constant": 1, "location": 1, "radius": 1, "fraction": 1, "displacement": 3,
     # a region edit adds an operator and an operand and may add or drop parentheses around what was there
     "geometry_and": 8, "geometry_or": 8,
 }
@@ -325,8 +326,36 @@ imp:n 1 0 1 1 0
 """
 
 
+# seeded C07f: a jump shortcut that covers several entries, followed by a comment; an edit gives the first of the
+# jumped entries a value, the shortcut is dropped, and the comment behind it must stay with the input
+CORPUS_TEXT6 = """comments behind jump shortcuts
+1 0 -1
+2 0 1 -2
+3 0 2 -3
+4 0 3 -4
+5 0 4
+
+1 so 1
+2 so 2
+3 so 3
+4 so 4
+
+mode n
+imp:n 1 1 1 1 0
+vol 3J $ shield volumes are not known
+     5.25 6
+tr5 3j $ no shift, rotation only
+     0 1 0 -1 0 0 0 0 1
+u 2j $ the first two are in the main universe
+     7 7 j
+"""
+
+
 def gen_cases(chk):
     cases = []
+    for k in range(30):
+        cases.append({"name": f"corpus-jump-shortcut-comment-{k}", "limit": 128, "text": CORPUS_TEXT6, "seed": 7500 + k, "nedits": 1 + k % 2,
+                      "kinds": ["volume", "displacement", "volume"]})
     for k in range(24):
         cases.append({"name": f"corpus-region-edit-comments-{k}", "limit": 128, "text": CORPUS_TEXT5, "seed": 7400 + k, "nedits": 1,
                       "kinds": ["geometry_and", "geometry_or"]})
